@@ -12,6 +12,13 @@ COMMON_NOTE = (
 )
 
 CHECKS = {
+    "C11": dict(
+        technique="exhaustive crash-point enumeration (every prefix of every cache file written by the implementation) + preemption-bounded stateless DFS over writer||reader thread interleavings under a cooperative scheduler",
+        text="The real server writes its directory cache; the file is then replaced by each of its prefixes 0..size (and zero/0xff-filled files) and the directory requested again through the real connection handler, "
+             "which must return the complete fresh listing. Same for the three files of the ZIP index cache. Concurrent writer/reader requests on one directory run under a baton scheduler with scheduling points at every "
+             "cache-file stat/open/read/write-chunk/close and directory enumeration; all interleavings with <=2 (quick) / <=3 (thorough) preemptions are executed, each client must get the complete listing and the file left behind must serve the next request correctly.",
+        design_ref="DESIGN.md 3/C11",
+    ),
     "C01": dict(
         technique="bounded-exhaustive enumeration of request lines x handler lists x working directories, two-world non-interference differential + audit-event monitor on the implementation",
         text="Every request of the bounded alphabet (13 protocol wrappers x 4 percent-encoding layers x paths of <=3 segments over traversal tokens, ZIP/virtual suffixes, NUL, backslashes) is served by the real server "
